@@ -17,16 +17,20 @@ OUTSIDE = ["IEEE rounding of the DDA parameters", "grids up to 2000 cells per ax
 def entries(tier):
     b = dict(paths=200000, time=3000)
     if tier == "quick":
-        return [Entry("c14_cast_d2", params=dict(res=0.25, extent=0.5, dirty_step=-1, dirty_index=7), concretize_fptoi=True, shard=12, budget=b),
-                Entry("c14_cast_d3", params=dict(res=0.25, extent=0.25, dirty_step=1, dirty_index=3), concretize_fptoi=True, shard=4, budget=b)]
-    return [Entry("c14_cast_d2", params=dict(res=0.25, extent=1.0, dirty_step=-1, dirty_index=7), concretize_fptoi=True, shard=16, budget=b),
-            Entry("c14_cast_f2", params=dict(res=0.25, extent=0.5, dirty_step=-1, dirty_index=7), concretize_fptoi=True, shard=8, budget=b),
-            Entry("c14_cast_d3", params=dict(res=0.25, extent=0.5, dirty_step=1, dirty_index=3), concretize_fptoi=True, shard=16, budget=b)]
+        return [Entry("c14_cast_d2", params=dict(res=0.25, extent=0.5, dirty_step=-1, dirty_index=7, mode=1), concretize_fptoi=True, shard=12, budget=b,
+                      note="setOriginPoint once, stale traversal members, then cast(end)"),
+                Entry("c14_cast_d2", params=dict(res=0.25, extent=0.5, dirty_step=-1, dirty_index=7, mode=0), concretize_fptoi=True, shard=12, budget=b),
+                Entry("c14_cast_d3", params=dict(res=0.25, extent=0.25, dirty_step=1, dirty_index=3, mode=0), concretize_fptoi=True, shard=4, budget=b)]
+    return [Entry("c14_cast_d2", params=dict(res=0.25, extent=0.5, dirty_step=-1, dirty_index=7, mode=1), concretize_fptoi=True, shard=12, budget=b),
+            Entry("c14_cast_d3", params=dict(res=0.25, extent=0.25, dirty_step=1, dirty_index=3, mode=1), concretize_fptoi=True, shard=8, budget=b),
+            Entry("c14_cast_d2", params=dict(res=0.25, extent=1.0, dirty_step=-1, dirty_index=7, mode=0), concretize_fptoi=True, shard=16, budget=b),
+            Entry("c14_cast_f2", params=dict(res=0.25, extent=0.5, dirty_step=-1, dirty_index=7, mode=0), concretize_fptoi=True, shard=8, budget=b),
+            Entry("c14_cast_d3", params=dict(res=0.25, extent=0.5, dirty_step=1, dirty_index=3, mode=0), concretize_fptoi=True, shard=16, budget=b)]
 
 def tv_vectors(tier):
-    p = dict(res=0.25, extent=0.5, dirty_step=-1, dirty_index=7)
+    p = dict(res=0.25, extent=0.5, dirty_step=-1, dirty_index=7, mode=0)
     g = {"g%d" % i: 0.5 * i for i in range(32)}
     return [("c14_cast_d2", p, dict(g, o0=0.05, o1=0.1, e0=0.45, e1=0.3)),
             ("c14_cast_d2", p, dict(g, o0=0.45, o1=0.45, e0=0.0, e1=0.1)),
             ("c14_cast_d2", p, dict(g, o0=0.2, o1=0.2, e0=0.2, e1=0.2)),
-            ("c14_cast_d3", dict(res=0.25, extent=0.25, dirty_step=1, dirty_index=3), dict(g, o0=0.05, o1=0.1, o2=0.2, e0=0.2, e1=0.24, e2=0.01))]
+            ("c14_cast_d3", dict(res=0.25, extent=0.25, dirty_step=1, dirty_index=3, mode=0), dict(g, o0=0.05, o1=0.1, o2=0.2, e0=0.2, e1=0.24, e2=0.01))]
